@@ -434,6 +434,10 @@ func checkC11(p *Prog, r *Report) {
 		r.Check(nGo == nAdd && nGo >= 4, "gatherer goroutines are all added to the WaitGroup", p.Pos(f.Body.Pos()), fmt.Sprintf("%d go statements, %d wg.Add", nGo, nAdd), fmt.Sprintf("%d gatherer goroutines but %d wg.Add calls", nGo, nAdd))
 	}
 	_ = token.ADD
+
+	// ---- R11.7 the cycle waits for everything it started ---------------------------------------------------
+	r.Rule("R11.7", "Every gatherer that starts goroutines under a local WaitGroup waits for them on every exit: the Wait is deferred, or every path from an Add to a return passes it — so the cycle reaches Complete (and emits the end-of-candidates event) only after all its candidates (shared with C08 / C09).", 3)
+	checkWaitGroupsAwaited(p, r, "Agent.gather")
 }
 
 // checkGatherCycleControl: shared by C11 (R11.6) and C18 (R18.3).
@@ -568,4 +572,80 @@ func checkCandidateEventSources(p *Prog, r *Report, nonNil bool) {
 		r.Fail("nil candidate source", "agent.go", fmt.Sprintf("%d sources of the end-of-candidates event (expected 1)", nNil))
 	}
 	_ = nNonNil
+}
+
+
+// checkWaitGroupsAwaited: in every function whose (root) name starts with prefix and that
+// declares a local sync.WaitGroup, Wait is deferred or follows every Add on every path to the exit.
+func checkWaitGroupsAwaited(p *Prog, r *Report, prefix string) {
+	n := 0
+	for _, f := range p.AllFuncs {
+		if f.Body == nil || f.Pkg != p.Ice || !strings.HasPrefix(f.Name, prefix) {
+			continue
+		}
+		// local WaitGroup variables declared in f itself
+		var wgs []types.Object
+		walkBody(f, func(x ast.Node) bool {
+			if vs, ok := x.(*ast.ValueSpec); ok {
+				for _, nm := range vs.Names {
+					if o := p.ObjOf(nm); o != nil && typeStr(o.Type()) == "sync.WaitGroup" {
+						wgs = append(wgs, o)
+					}
+				}
+			}
+			return true
+		})
+		for _, wg := range wgs {
+			isOn := func(c *ast.CallExpr, method string) bool {
+				if p.CalleeName(c) != "sync.WaitGroup."+method {
+					return false
+				}
+				sel, ok := unparen(c.Fun).(*ast.SelectorExpr)
+				return ok && p.isObj(sel.X, wg)
+			}
+			deferred := false
+			var adds []*ast.CallExpr
+			walkBody(f, func(x ast.Node) bool {
+				switch y := x.(type) {
+				case *ast.DeferStmt:
+					if isOn(y.Call, "Wait") {
+						deferred = true
+					}
+				case *ast.CallExpr:
+					if isOn(y, "Add") {
+						adds = append(adds, y)
+					}
+				}
+				return true
+			})
+			if len(adds) == 0 {
+				continue
+			}
+			n++
+			ok := deferred
+			if !ok {
+				ok = true
+				g := p.CFG(f)
+				for _, a := range adds {
+					loc, found := g.Locate(a)
+					if !found {
+						ok = false
+						continue
+					}
+					if _, escapes := g.PathAvoiding(Loc{loc.B, loc.I + 1}, func(nd ast.Node) bool {
+						if _, isDefer := nd.(*ast.DeferStmt); isDefer {
+							return false
+						}
+						return p.nodeHasCall(nd, func(c *ast.CallExpr) bool { return isOn(c, "Wait") })
+					}, func(b *Block) bool { return b == g.Exit }, nil); escapes {
+						ok = false
+					}
+				}
+			}
+			r.Check(ok, f.Name+": goroutines started under "+wg.Name()+" are awaited", p.Pos(wg.Pos()), "defer Wait, or Wait on every path after Add", "a path leaves "+f.Name+" after goroutines were started under its WaitGroup without waiting for them: the gathering cycle completes (nil candidate, sockets considered released) while an allocation of the same cycle is still in flight")
+		}
+	}
+	if n == 0 {
+		r.Fail("gatherers with a WaitGroup", "", "no gatherer with a local WaitGroup found (rule instance lost)")
+	}
 }
